@@ -13,6 +13,7 @@ Path conditions stay quantifier-free (``st.pc``); quantified hypotheses live in 
 proving goals, never in feasibility queries (DESIGN 2.4)."""
 import ast, itertools, collections, time, hashlib, os, sys, re, subprocess, tempfile, json
 from z3 import *
+import z3 as _z3
 
 REPO = os.environ.get('PYVC_REPO', '/repo')
 
@@ -56,7 +57,8 @@ class Classes:
                      ('NotImplementedError', 'RuntimeError'), ('RecursionError', 'RuntimeError'), ('ConnectionError', 'OSError'), ('PermissionError', 'OSError'),
                      ('FileNotFoundError', 'OSError'), ('ChildProcessError', 'OSError'), ('InterruptedError', 'OSError'), ('ImportError', 'Exception'),
                      ('ModuleNotFoundError', 'ImportError'), ('StopIteration', 'Exception'), ('UnicodeError', 'ValueError'), ('UnicodeDecodeError', 'UnicodeError'),
-                     ('QueueFull', 'Exception'), ('QueueEmpty', 'Exception'), ('Error', 'Exception')]:
+                     ('QueueFull', 'Exception'), ('QueueEmpty', 'Exception'), ('Error', 'Exception'), ('UnknownTimeZoneError', 'KeyError'), ('ValidationError', 'ValueError'),
+                     ('JSONDecodeError', 'ValueError'), ('PicklingError', 'Exception'), ('UnpicklingError', 'Exception')]:
             s.add(n, p)
     def add(s, n, p):
         if n in s.ids: return
@@ -256,8 +258,12 @@ class Exec:
             return k(st2, self.wrap_kind(path, v))
         return self.ev(e.value, st, got, K)
     def ev_JoinedStr(self, e, st, k, K): return k(st, fresh('fstr'))
-    def ev_Dict(self, e, st, k, K): return k(st, fresh('dictdisplay'))
-    def ev_List(self, e, st, k, K): return k(st, fresh('listdisplay'))
+    def ev_Dict(self, e, st, k, K):
+        if e.keys: return k(st, fresh('dictdisplay'))
+        a = alloc(st); st.pc.append(st.heap.dhas[a] == _z3.K(Val, False)); return k(st, PyDict(a))          # {}: a new, empty, modelled dict
+    def ev_List(self, e, st, k, K):
+        if e.elts: return k(st, fresh('listdisplay'))
+        a = alloc(st); st.pc.append(st.heap.llen[a] == 0); return k(st, PyList(a))                         # []: a new, empty, modelled list
     def ev_Tuple(self, e, st, k, K): return self.ev_list(e.elts, st, lambda s, vs: k(s, PyTuple(vs)), K)
     # comprehensions  [f(x) for x in xs if c(x)]  /  {k: f(v) for k, v in d.items() if c(k, v)}  (one generator): filter and element expression are
     # executed ONCE for an arbitrary element (fresh index / key); the result collection is described by quantified facts obtained by generalising
@@ -437,7 +443,19 @@ class Exec:
         for pat, h in self.handlers.items():
             if pat.startswith('*.') and name.endswith(pat[1:]): return h
             if pat.endswith('.*') and name.startswith(pat[:-1]): return h
-        return self.inline_handler(name) or self.pure_fallback(name)
+        if isinstance(recv, PyList) and meth == 'append': return _h_list_append
+        h = self.inline_handler(name) or self.pure_fallback(name)
+        if h is None and meth in CLS.ids and CLS.is_sub(meth, 'BaseException') and recv is None:          # ValueError("...") / exceptions.SendTaskError(...): a new exception object of that class
+            return lambda ex, st, e, r, a, kw, k, K: k(st, new_exc(st, meth))
+        if h is None and '.' in name and (re.match(r"^(is_|has_|can_|should_)\w+$", meth) or meth in ('locked', 'empty', 'full', 'done', 'cancelled', 'isidentifier', 'isdigit', 'startswith', 'endswith', 'is_set')) and not getattr(self, 'no_pure_fallback', False):
+            def h_pred(ex, st, e, r, a, kw, k, K):          # a side-effect free predicate of an object the contracts do not describe: unconstrained boolean, marked as approximation
+                approx(st, f"{name}() has no contract (pure predicate, unconstrained result)"); return k(st, PyBool(fresh(meth + '_result', BoolSort())))
+            return h_pred
+        if h is None and '.' in name and meth in ('lower', 'upper', 'strip', 'lstrip', 'rstrip', 'title', 'casefold', 'format', 'join', 'split', 'replace', 'encode', 'decode', 'copy', 'total_seconds') and not getattr(self, 'no_pure_fallback', False):
+            def h_purem(ex, st, e, r, a, kw, k, K):
+                approx(st, f"{name}() has no contract (pure method, unconstrained result)"); return k(st, fresh(meth + '_result'))
+            return h_purem
+        return h
     # ---------- side-effect free builtins / stdlib functions without a contract: the result is an UNCONSTRAINED value and the path is marked as
     # depending on an over-approximation (core.approx): proofs stay sound, a refutation that needs the unknown value is reported as undecided.
     # int()/float() of a value that already is an int is the value itself. Functions that can raise get an exception edge of their documented class.
@@ -457,6 +475,7 @@ class Exec:
             if exc_cls:
                 f = st.fork(); K['exc'](f, new_exc(f, exc_cls))
             r = fresh(name.replace('.', '_') + '_result')
+            if name == 'divmod': return k(st, PyTuple([fresh('divmod_q'), fresh('divmod_r')]))
             return k(st, PyBool(fresh(name.replace('.', '_') + '_result', BoolSort())) if name in ('isinstance', 'issubclass', 'callable', 'hasattr', 'bool', 'any', 'all', 'math.isnan', 'math.isinf', 'math.isfinite') else r)
         return h
     # ---------- calls into /repo that have no contract are INLINED (DESIGN 2.3): `self._helper(...)` of the same class and module-level functions of
@@ -470,7 +489,16 @@ class Exec:
         elif '.' not in name: qual = name
         if qual is None: return None
         try: fdef = src.func(rel, qual)
-        except Unsupported: return None
+        except Unsupported:
+            fdef = None
+            if '.' not in name:          # a helper imported from another module of the repository: `from taskiq.labels import prepare_labels`
+                for n_ in src.tree(rel).body:
+                    if isinstance(n_, ast.ImportFrom) and n_.module and n_.module.startswith('taskiq') and any((a_.asname or a_.name) == name for a_ in n_.names):
+                        orig = next(a_.name for a_ in n_.names if (a_.asname or a_.name) == name)
+                        for rel2 in (n_.module.replace('.', '/') + '.py', n_.module.replace('.', '/') + '/__init__.py'):
+                            try: fdef = src.func(rel2, orig); break
+                            except Exception: continue
+            if fdef is None: return None
         if isinstance(fdef, ast.ClassDef): return None
         ex_self = self
         def h(ex, st, e, recv, args, kw, k, K):
@@ -510,6 +538,10 @@ class Exec:
         m = getattr(self, 'st_' + type(s).__name__, None)
         if m is None: raise Unsupported("statement " + type(s).__name__ + ": " + ast.unparse(s)[:80])
         return m(s, st, k, K)
+    def st_With(self, s, st, k, K):
+        # `with <lock>:` only (a mutual-exclusion context manager never swallows exceptions and binds nothing): the body is executed as it stands
+        if len(s.items) == 1 and s.items[0].optional_vars is None and re.search(r"(?i)lock|mutex", ast.unparse(s.items[0].context_expr)): return self.block(s.body, st, k, K)
+        raise Unsupported("statement With: " + ast.unparse(s)[:80])
     def st_Expr(self, s, st, k, K):
         if isinstance(s.value, ast.Constant): return k(st)
         return self.ev(s.value, st, lambda st2, v: k(st2), K)
@@ -652,6 +684,9 @@ class Exec:
 
 
 
+def _h_list_append(ex, st, e, l, args, kw, k, K):
+    st.heap = st.heap.copy(); hh = st.heap; m = hh.llen[l.addr]
+    hh.litem = Store(hh.litem, l.addr, Store(hh.litem[l.addr], m, to_val(args[0]))); hh.llen = Store(hh.llen, l.addr, m + 1); return k(st, None)
 class MergeFail(Exception): pass
 def _merge_vals(conds, vals):
     """ite-join of python-side values under mutually exclusive guards `conds`"""
